@@ -30,12 +30,24 @@ class Faults:
         self.n = 0
         self.at = None
         self.kinds = []
+        self.exc_kind = "Marker"
 
     def hit(self, kind):
         self.n += 1
         self.kinds.append(kind)
         if self.at is not None and self.n == self.at:
-            raise Marker(f"injected at callback #{self.n} ({kind})")
+            msg = f"injected at callback #{self.n} ({kind})"
+            if self.exc_kind == "SchemaError":
+                # a callback that validates with another schema raises pandera's own error class
+                import pandera as pa
+                raise pa.errors.SchemaError(schema=None, data=None, message=msg)
+            if self.exc_kind == "SchemaErrors":
+                import pandera as pa
+                try:
+                    pa.DataFrameSchema({"zz": pa.Column(int)}).validate(pd.DataFrame({"yy": [1]}), lazy=True)
+                except pa.errors.SchemaErrors as e:
+                    raise e
+            raise Marker(msg)
 
 
 # ---- pandas schemas with user callbacks --------------------------------------------------
@@ -143,10 +155,11 @@ def leak_region(exc):
     return None
 
 
-def run_one(c, at=None):
+def run_one(c, at=None, exc_kind="Marker"):
     from pandera.config import get_config_context
     F = Faults()
     F.at = at
+    F.exc_kind = exc_kind
     schema = build_pandas(c, F, 0)
     df = A.frame_of(c["frame"])
     snap = snapshot_df(df)
@@ -188,11 +201,23 @@ def run_faults(rep, cases):
             kind = r["kinds"][k - 1] if len(r["kinds"]) >= k else "?"
             rep.count("fault@" + kind + ":" + r["outcome"].split(":")[0])
             judge(rep, c, k, r, kind)
+            if kind.startswith("check"):
+                # the same fault raised as pandera's own error classes (a check that validates with another schema)
+                for ek in ("SchemaError", "SchemaErrors"):
+                    try:
+                        r = run_one(c, k, ek)
+                    except Exception as e:  # noqa: BLE001
+                        rep.count("harness-exception:" + type(e).__name__)
+                        continue
+                    rep.evaluations += 1
+                    rep.count(f"fault[{ek}]@" + kind + ":" + r["outcome"].split(":")[0])
+                    judge(rep, c, k, r, kind, ek)
 
 
-def judge(rep, c, k, r, kind=None):
+def judge(rep, c, k, r, kind=None, exc_kind="Marker"):
     case = {kk: c[kk] for kk in ("schema", "frame", "callbacks", "parsers", "frame_callback", "frame_parser", "lazy")}
     case["fault_at"] = k
+    case["fault_class"] = exc_kind
     o = r["outcome"]
     if o.startswith("leak:"):
         rep.property_failure(case, f"internal exception escapes validate: {type(r['exc']).__name__}: "
@@ -324,9 +349,9 @@ def run(tier, replay=None):
     if replay:
         case = json.loads(open(replay).read())["case"]
         if "callbacks" in case:
-            r = run_one(case, case.get("fault_at"))
+            r = run_one(case, case.get("fault_at"), case.get("fault_class", "Marker"))
             kind = r["kinds"][case["fault_at"] - 1] if case.get("fault_at") and len(r["kinds"]) >= case["fault_at"] else None
-            judge(rep, case, case.get("fault_at"), r, kind)
+            judge(rep, case, case.get("fault_at"), r, kind, case.get("fault_class", "Marker"))
         else:
             replay_scan_case(rep, case)
         return rep.finish(rule="replay")
